@@ -35,14 +35,17 @@ def merge_shape(r, L):
                (r[1] - L) == NODES.empty(), (r[2] & L) == NODES.empty())
 
 
-def new_nodes_are_in_memory(r, names):
-    """what we add to the disk list is named in self._names (the in-memory list)"""
-    return Implies(In(N0(), r[2]), In(N0()[0], names))
+def new_nodes_are_in_memory(r, names, L=None):
+    """what we add to the disk list is named in self._names (the in-memory list); what we loaded and no longer hold in memory is deleted"""
+    a = Implies(In(N0(), r[2]), In(N0()[0], names))
+    if L is None:
+        return a
+    return And(a, Implies(And(In(N0(), L), Not(In(N0()[0], names))), In(N0(), r[1])))
 
 
 DIFF = verified(("RepositoryPackCollection", "_diff_pack_names"), result=Tup(NODES, NODES, NODES, NODES),
                 ensures=lambda c: And(merge_shape(c.result, c.self._packs_at_load), disk_set_is_image(c, c.result[3]),
-                                      new_nodes_are_in_memory(c.result, c.self._names)),
+                                      new_nodes_are_in_memory(c.result, c.self._names, c.self._packs_at_load)),
                 raises={"Exception": None})
 
 target(P + "_diff_pack_names", modifies=[],
@@ -55,7 +58,7 @@ target(P + "_diff_pack_names", modifies=[],
                                         Implies(In(M0(), c.done), exists([BYTES], lambda v: In(NODE.mk(M0(), v), c.current_nodes)))))},
        ensures={
            "caller_contract": lambda c: And(merge_shape(c.result, c.old.self._packs_at_load), disk_set_is_image(c, c.result[3]),
-                                            new_nodes_are_in_memory(c.result, c.old.self._names)),
+                                            new_nodes_are_in_memory(c.result, c.old.self._names, c.old.self._packs_at_load)),
            # the statement's sentence: with D on disk now, L loaded at lock time, C in memory
            "three_way_merge": lambda c: And(c.result[0] == ((c.result[3] - (c.old.self._packs_at_load - c.current_nodes))
                                                             | (c.current_nodes - c.old.self._packs_at_load)),
